@@ -32,9 +32,12 @@ func fmtDpkg() *format {
 			{name: "extras", labels: []string{"minimal", "rich"}},
 			{name: "desc", labels: []string{"none", "single-line", "multi-line-with-fieldlike-continuation"}},
 			{name: "want", labels: []string{"install", "hold-on-odd-records"}},
+			// deb822: horizontal whitespace (spaces, tabs) before and after the value is ignored.
+			{name: "sep", labels: []string{"colon-space", "colon-tab", "colon-only+trailing-blanks"}},
 			{name: "notinst", kind: posIdx, labels: []string{"deinstall-config-files", "purge-not-installed"}},
 		},
-		newEx: func() filesystem.Extractor { return dpkg.NewDefault() },
+		newEx:       func() filesystem.Extractor { return dpkg.NewDefault() },
+		maxThorough: 3,
 	}
 	f.gen = func(recs []rec, lay []int) genOut {
 		l := layout{f, lay}
@@ -119,6 +122,22 @@ func fmtDpkg() *format {
 				st2 = append(st2, pkg)
 				st2 = append(st2, after...)
 				st2 = append(st2, st)
+			}
+			if sv := l.get("sep"); sv != 0 {
+				for k, ln := range st2 {
+					if ln == "" || ln[0] == ' ' || ln[0] == '\t' { // continuation lines stay as they are
+						continue
+					}
+					name, val, _ := strings.Cut(ln, ": ")
+					if name == ln { // "Conffiles:" (empty first line)
+						continue
+					}
+					if sv == 1 {
+						st2[k] = name + ":\t" + val
+					} else {
+						st2[k] = name + ":" + val + " \t"
+					}
+				}
 			}
 			lines = append(lines, st2...)
 		}
